@@ -383,6 +383,13 @@ class SigmaDetection(ParentChainMixin):
         if self_detection_item_types == {
             SigmaDetection
         }:  # if the items are SigmaDetections, they originate from a list and therefore must not be merged.
+            if self.item_linking is ConditionAND and len(detection_items) > 1:
+                # ...unless they replaced the items of a map (e.g. one-to-many field mappings of
+                # several fields): a list would link them with OR when it is loaded again.
+                raise sigma_exceptions.SigmaValueError(
+                    "Can't convert AND-linked nested detections into a plain value, a list links them with OR",
+                    source=self.source,
+                )
             return detection_items
         else:  # SigmaDetectionItems must be merged into a dict, where they originally were created from.
             detection_items_types = {  # create set of types for decision what has to be returned
